@@ -284,3 +284,6 @@ package core
 // ---- round 7: the backoff never shrinks below the delay just used (except to the configured maximum) ----
 //@ func (*dialer).dial
 //@   before call:AfterFunc#1 assert rtime >= 0 ==> d.reconnTime >= rtime || d.reconnTime == d.reconnMaxTime
+
+//@ func (*pipe).Close
+//@   ensures !spawned("pipeClosed") && called("Do")
